@@ -207,7 +207,7 @@ def coq_case(c, r):
         oc = None if (c['args'] is None or c.get('in_init')) else c['args']
         world = [w for w in r['world'] if w[0] != 4]
         return (f'eval_case_tv {coq_world(world)} {nat(c["inst"])} {"None" if oc is None else "(Some " + toks(oc) + ")"} '
-                f'{nat(c["op"])} {coq_shape(c["shape"])}')
+                f'{nat(c["op"])} {coq_shape(c["shape"])} {coq_bool(bool(c.get("full")))}')
     eff = effective_defs(c, r['world'], r['dir'])
     if eff is None:
         return None
@@ -266,8 +266,8 @@ def gen_tv(rng, tier):
     n = rng.choice([1, 1, 2, 2, 3, 4] + ([5, 6] if nmax > 4 else []))
     tvs = rng.sample(range(8), n)
     args = [20 + rng.randrange(12) for _ in range(n)]
-    kind = rng.choice(['direct'] * 30 + ['binding'] * 40 + ['nongeneric'] * 8 + ['direct_after_alias'] * 6 + ['other'] * 16
-                      + ['binding_foreign'] * 8)
+    kind = rng.choice(['direct'] * 30 + ['binding'] * 40 + ['nongeneric'] * 8 + ['direct_after_alias'] * 6 + ['other'] * 14
+                      + ['binding_foreign'] * 8 + ['chain'] * 10)
     case = {'stream': 'tv', 'op': rng.choice([0, 0, 0, 1]), 'in_init': False, 'args': None}
     if kind == 'direct':
         c = direct_class(tvs)
@@ -290,6 +290,7 @@ def gen_tv(rng, tier):
         b = direct_class(tvs)
         post = plains(rng.choice([0, 0, 1, 2]))
         front = []
+        chain_expect = None
         if kind == 'binding_foreign':
             # a parametrised base in front of the binding base that has nothing to do with the mixin
             # (region of the fixed findings K-C20-builtin-alias-first / K-C20-foreign-generic-first)
@@ -301,12 +302,15 @@ def gen_tv(rng, tier):
                     p = direct_class(tvf, mixin=False)
                     front.append(['alias', p, [20 + rng.randrange(12) for _ in tvf]])
         elif rng.random() < 0.12:
-            # a parametrised base the scan passes over: Mid[z] with class Mid(D0[T]) forwarding its parameter
+            # a parametrised forwarding base in front: Mid[z] with class Mid(D0[T]) (the scan of _get_types passes over it)
             tvm = rng.sample(range(8), 1)
             d0 = direct_class(tvm)
             mid = nid()
             classes.append({'id': mid, 'bases': [['alias', d0, tvm]]})
-            front.append(['alias', mid, [20 + rng.randrange(12)]])
+            z = 20 + rng.randrange(12)
+            front.append(['alias', mid, [z]])
+            # full statement: the first parametrised base that uses the mixin is Mid[z], resolved through the chain
+            chain_expect = ['binding', tvm, [z]]
         if rng.random() < 0.25:
             tv2 = rng.sample(range(8), rng.choice([1, 2]))
             b2 = direct_class(tv2)
@@ -319,6 +323,40 @@ def gen_tv(rng, tier):
         c = sub_levels(c, rng.choice([0, 0, 0, 1, 2]))
         case['in_init'] = rng.random() < 0.2
         case['shape'] = ['binding', tvs, args]
+        if chain_expect:
+            case['shape'], case['full'] = chain_expect, True
+    elif kind == 'chain':
+        # the binding base got its parameters through forwarding / partially binding classes (full statement; region of the
+        # known findings K-C20-forwarding-chain / K-C20-partially-binding-chain)
+        cur = direct_class(tvs)
+        cur_params = list(tvs)
+        mapping = {t: t for t in tvs}
+        for _ in range(rng.choice([1, 1, 1, 2])):
+            forwarding = rng.random() < 0.4
+            ys = [rng.randrange(10) if (forwarding or rng.random() < 0.5) else 20 + rng.randrange(12) for _ in cur_params]
+            if all(y >= 20 for y in ys):
+                ys[rng.randrange(len(ys))] = rng.randrange(10)
+            bind = dict(zip(cur_params, ys))
+            mapping = {t: bind.get(v, v) for t, v in mapping.items()}
+            m = nid()
+            classes.append({'id': m, 'bases': plains(rng.choice([0, 0, 1])) + [['alias', cur, ys]] + plains(rng.choice([0, 0, 1]))})
+            cur, cur_params = m, list(dict.fromkeys(y for y in ys if y < 20))
+        zs = [20 + rng.randrange(12) for _ in cur_params]
+        bind = dict(zip(cur_params, zs))
+        mapping = {t: bind.get(v, v) for t, v in mapping.items()}
+        pre = plains(rng.choice([0, 0, 1]))
+        if rng.random() < 0.2:
+            pre.append(['builtin', 'list', [20 + rng.randrange(12)]])
+        post = plains(rng.choice([0, 0, 1]))
+        if rng.random() < 0.2:
+            tv2 = rng.sample(range(8), 1)
+            post.append(['alias', direct_class(tv2), [20 + rng.randrange(12)]])
+        c = nid()
+        classes.append({'id': c, 'bases': pre + [['alias', cur, zs]] + post})
+        case['binding_cls'] = c
+        c = sub_levels(c, rng.choice([0, 0, 0, 1]))
+        case['in_init'] = rng.random() < 0.2
+        case['shape'], case['full'] = ['binding', tvs, [mapping[t] for t in tvs]], True
     elif kind == 'nongeneric':
         c = nid()
         bases = plains(rng.choice([0, 1, 2]))
@@ -329,7 +367,7 @@ def gen_tv(rng, tier):
         case['shape'] = ['nongeneric']
     else:
         b = direct_class(tvs)
-        how = rng.choice(['forward', 'forward_leaf', 'partial', 'builtin', 'two_level_binding'])
+        how = rng.choice(['forward', 'partial', 'builtin', 'two_level_binding'])
         case['shape'] = ['other']
         if how == 'builtin':
             c = nid()
@@ -688,9 +726,36 @@ def first_foreign(case):
     return None
 
 
+def chain_kind(case):
+    """tv: the first parametrised base of the binding class statement that uses the mixin has an origin that does not declare
+    Generic[..] itself but got its parameters from a parametrised base of its own: 'forwarding' (all arguments of that base
+    are TypeVars) / 'partial' (some are bound) / None"""
+    by = {cl['id']: cl for cl in case.get('classes', [])}
+
+    def uses_mixin(cl, depth=0):
+        return depth < 10 and any(b[0] == 'mixin' or (b[0] in ('plain', 'alias') and b[1] in by and uses_mixin(by[b[1]], depth + 1))
+                                  for b in cl['bases'])
+    cl = by.get(case.get('binding_cls'))
+    if not cl:
+        return None
+    for b in cl['bases']:
+        if b[0] != 'alias' or b[1] not in by or not uses_mixin(by[b[1]]):
+            continue
+        o = by[b[1]]
+        if any(x[0] == 'generic' for x in o['bases']):
+            return None
+        for x in o['bases']:
+            if x[0] == 'alias' and x[1] in by and uses_mixin(by[x[1]]):
+                return 'forwarding' if all(t < 20 for t in x[2]) else 'partial'
+        return None
+    return None
+
+
 def known_matcher(finding, case):
     mid = finding.get('matcher', {}).get('id')
     if case.get('stream') == 'tv':
+        if mid in ('binding_base_is_forwarding_class', 'binding_base_is_partially_binding_class'):
+            return chain_kind(case) == {'binding_base_is_forwarding_class': 'forwarding', 'binding_base_is_partially_binding_class': 'partial'}[mid]
         return {'builtin_alias_before_binding_base': 'builtin', 'foreign_generic_before_binding_base': 'generic'}.get(mid, 0) == first_foreign(case)
     if case.get('stream') != 'dm':
         return False
@@ -773,7 +838,7 @@ def run(tier, seed, replay=None):
                 nontrivial = len(c['classes']) >= 2
                 if g:
                     glue.append({'case': c, 'what': g})
-                if not m_meets:
+                if not m_meets and not c.get('full'):      # full: region of the refuted statement
                     meets_fail.append({'case': c, 'model': m})
             else:
                 corr, prop, what, claimed, no_dd, m_ok, bad, no_raise = judge_dm(c, r, m)     # no_dd: outside every known-finding region
